@@ -78,7 +78,7 @@ def cases(draw, tier):
             prog.append({"op": "vcompress", "o": draw(st.integers(0, 9)), "a": draw(st.integers(0, 9)),
                          "method": draw(st.sampled_from(["1site", "2site"])), "small_guess": draw(st.integers(0, 1)),
                          "stale": draw(st.integers(0, 2)) == 0})
-        elif draw(st.integers(0, 11)) == 0:
+        elif draw(st.integers(0, 6)) == 0:
             prog.append({"op": "compress_scaled", "a": draw(st.integers(0, 9)), "on": draw(st.sampled_from(["S", "S", "M"])),
                          "exp": draw(st.sampled_from([-10, -14, -6, 8])), "dir": draw(st.integers(0, 1))})
         else:
